@@ -12,7 +12,9 @@ import (
 	"fmt"
 	"os"
 	"path/filepath"
+	"sync"
 	"testing"
+	"time"
 
 	"github.com/ozontech/file.d/pipeline"
 	"github.com/ozontech/file.d/zzverif/fdkit"
@@ -28,6 +30,10 @@ type C07AddJobCommit struct {
 type C07AddJobCase struct {
 	Op      string `json:"op"`      // continue | tail | reset
 	Started bool   `json:"started"` // the file appears after the start phase
+	// RealStart (with Started): the provider goes through its own start() - offsets file loaded from disk,
+	// watcher on an empty directory, background loops - instead of having its state set by hand
+	RealStart bool `json:"real_start,omitempty"`
+	Sync      bool `json:"sync,omitempty"` // persistence_mode sync
 	Size    int    `json:"size"`    // bytes in the file when it is found
 	// Loaded: what the offsets file of the previous run held for this file
 	Loaded []C07AddJobCommit `json:"loaded,omitempty"`
@@ -41,6 +47,10 @@ func genC07AddJob(t *rapid.T) C07AddJobCase {
 		Started: rapid.IntRange(0, 3).Draw(t, "started") == 0,
 		Size:    rapid.SampledFrom([]int{0, 1, 2, 17, 200, 5000}).Draw(t, "size"),
 	}
+	if c.Started {
+		c.RealStart = rapid.Bool().Draw(t, "real_start")
+	}
+	c.Sync = rapid.Bool().Draw(t, "sync")
 	names := []string{"not_set", "stdout", "stderr", "a:b"}
 	top := map[string]int64{}
 	if rapid.Bool().Draw(t, "has_loaded") {
@@ -85,7 +95,19 @@ func runC07AddJob(c C07AddJobCase) *vkit.Outcome {
 	path := filepath.Join(dir, "offsets.yaml")
 	cfg := &Config{MaxFiles: 16, OffsetsFile: path, OffsetsFileTmp: path + ".atomic", Paths: Paths{Include: []string{filepath.Join(dir, "*.log")}}}
 	cfg.PersistenceMode_ = persistenceModeAsync
+	if c.Sync {
+		cfg.PersistenceMode_ = persistenceModeSync
+	}
 	cfg.OffsetsOp_ = op
+	if c.RealStart && c.Started {
+		empty := filepath.Join(dir, "watched-and-empty")
+		if err := os.MkdirAll(empty, 0o700); err != nil {
+			verifInfra("mkdir: %v", err)
+		}
+		cfg.WatchingDir = empty
+		cfg.Paths = Paths{Include: []string{filepath.Join(empty, "*.log")}}
+		cfg.AsyncInterval_, cfg.MaintenanceInterval_, cfg.ReportInterval_ = time.Hour, 20*time.Millisecond, 20*time.Millisecond
+	}
 	jp := NewJobProvider(cfg, verifMetrics, verifLog)
 	f, err := os.Open(logPath)
 	if err != nil {
@@ -104,9 +126,27 @@ func runC07AddJob(c C07AddJobCase) *vkit.Outcome {
 			streams[pipeline.StreamName(l.Stream)] = l.Offset
 			loaded[l.Stream] = l.Offset
 		}
-		jp.loadedOffsets = fpOffsets{sid: &inodeOffsets{filename: logPath, sourceID: sid, streams: streams}}
+		if c.RealStart && c.Started {
+			// what the previous run left on disk
+			prev := C07Job{File: logPath, Inode: uint64(getInode(stat)), SourceID: uint64(sid), TS: 1}
+			for _, l := range c.Loaded {
+				prev.Streams = append(prev.Streams, C07Stream{Name: l.Stream, Off: l.Offset})
+			}
+			newOffsetDB(path, path+".atomic").save(c07BuildJobs([]C07Job{prev}), &sync.RWMutex{})
+		} else {
+			jp.loadedOffsets = fpOffsets{sid: &inodeOffsets{filename: logPath, sourceID: sid, streams: streams}}
+		}
 	}
-	jp.isStarted.Store(c.Started)
+	if c.RealStart && c.Started {
+		if rec, _ := fdkit.CatchPanic(jp.start); rec != nil {
+			o.Failf(pC07, "addjob:start-panicked", "%v", rec)
+			return o
+		}
+		defer func() { _, _ = fdkit.CatchPanic(jp.stop) }()
+		o.Class("addjob:provider-started-by-its-own-start")
+	} else {
+		jp.isStarted.Store(c.Started)
+	}
 	what := fmt.Sprintf("offsets_op %s, file of %d bytes found %s, offsets file of the previous run held %v for it", c.Op, c.Size, map[bool]string{false: "in the start phase", true: "after the start"}[c.Started], c.Loaded)
 	if rec, _ := fdkit.CatchPanic(func() { jp.addJob(f, stat, logPath, "") }); rec != nil {
 		o.Failf(pC07, "addjob:add-job-panicked", "%s: %v", what, rec)
@@ -123,7 +163,9 @@ func runC07AddJob(c C07AddJobCase) *vkit.Outcome {
 		}
 		for _, row := range c07FromLoaded(l) {
 			for name, off := range row.streams {
-				if off == 0 || off == committed[name] || (committed[name] == 0 && off == loaded[name]) {
+				// a file that appears after the start phase is new content: offsets of an earlier file with the
+				// same id are not commits of it ("load saved offsets only on start phase")
+				if off == 0 || off == committed[name] || (committed[name] == 0 && off == loaded[name] && !c.Started) {
 					continue
 				}
 				o.Failf(pC07, "addjob:saved-offset-never-committed", "%s, %s: the offsets file holds %q=%d; committed in this run on that stream: %d, left by the previous run: %d", what, when, name, off, committed[name], loaded[name])
